@@ -326,7 +326,12 @@ class HybridClass(metaclass=MetaHybridClass):
         defaults = {}
         for field in obj._XoStruct._fields:
             try:
-                defaults[field.name] = field.get_default()
+                default = field.get_default()
+                if hasattr(default, "to_nparray"):
+                    # compare arrays element by element, whatever their
+                    # number of dimensions and axis order
+                    default = default.to_nparray()
+                defaults[field.name] = default
             except (TypeError, ValueError):
                 # The above can fail with different error types
                 # if a field type is dynamic.
